@@ -151,8 +151,26 @@ def _yielding(frame, value):
     _suspend(frame, None)
     try:
         received = yield value
+    except StopIteration as exc:
+        # Thrown into the generator. It cannot leave this helper as it is
+        # (PEP 479): _resumed raises it again in the generator itself
+        received = _Thrown(exc)
     finally:
         _resume(frame, None)
+    return received
+
+
+class _Thrown:
+    __slots__ = ("exc",)
+
+    def __init__(self, exc):
+        self.exc = exc
+
+
+def _resumed(received):
+    """Hand over what the generator was resumed with."""
+    if type(received) is _Thrown:
+        raise received.exc
     return received
 
 
@@ -1049,12 +1067,18 @@ class PteraTransformer(NodeTransformer):
         )
         # The call stops running at the yield: its handlers must not apply
         # to whatever code runs until it is resumed
-        resumed = ast.YieldFrom(
-            value=ast.Call(
-                func=self._get("yielding"),
-                args=[self._get("frame"), new_value],
-                keywords=[],
-            )
+        resumed = ast.Call(
+            func=self._get("resumed"),
+            args=[
+                ast.YieldFrom(
+                    value=ast.Call(
+                        func=self._get("yielding"),
+                        args=[self._get("frame"), new_value],
+                        keywords=[],
+                    )
+                )
+            ],
+            keywords=[],
         )
         new_yield = self._interact(
             "#receive",
@@ -1287,6 +1311,7 @@ def transform(fn, proceed, to_instrument=True, set_conformer=True):
         "suspend": ("__ptera_suspend", _suspend),
         "resume": ("__ptera_resume", _resume),
         "yielding": ("__ptera_yielding", _yielding),
+        "resumed": ("__ptera_resumed", _resumed),
         "get_tags": ("__ptera_get_tags", get_tags),
         "self": (fnsym, None),
         "frame": ("__ptera_frame", None),
